@@ -1,7 +1,8 @@
 /-
   C18 — dedent removes exactly the longest common whitespace margin.
 -/
-import Lemmas.Dedent
+import Lemmas.DedentJoin
+import Props.C19
 namespace TW.C18
 
 /-- the margin: longest common prefix of the leading-whitespace runs of the lines that contain
@@ -168,6 +169,330 @@ theorem dedent_spec (isWs : Char → Bool) (s : Text) :
 theorem dedent_line_count (isWs : Char → Bool) (s : Text) :
     ((lines s).map fun l => lineImage isWs (margin isWs (lines s)) l).length = (lines s).length := by
   simp
+
+/-! ### the text as `'\n'`-separated pieces (text without carriage returns) -/
+
+theorem margin_no_nonblank (isWs : Char → Bool) (ls : List Text)
+    (h : ∀ l ∈ ls, nonblank isWs l = false) : margin isWs ls = [] := by
+  unfold margin
+  have : ls.filter (nonblank isWs) = [] := by
+    rw [List.filter_eq_nil_iff]; intro l hl; simp [h l hl]
+  rw [this]; rfl
+
+theorem margin_append_blank (isWs : Char → Bool) (ls : List Text) (b : Text)
+    (hb : nonblank isWs b = false) : margin isWs (ls ++ [b]) = margin isWs ls := by
+  unfold margin
+  rw [List.filter_append]
+  simp [List.filter, hb]
+
+/-- the margin is determined by its universal property -/
+theorem margin_unique (isWs : Char → Bool) (ls : List Text) (x : Text) (hx : x.all isWs = true)
+    (hex : ∃ l ∈ ls, nonblank isWs l = true)
+    (hp : ∀ l ∈ ls, nonblank isWs l = true → x <+: l)
+    (hmax : ∀ w : Text, w.all isWs = true → (∀ l ∈ ls, nonblank isWs l = true → w <+: l) → w <+: x) :
+    margin isWs ls = x := by
+  have h1 : x <+: margin isWs ls := margin_longest isWs ls x hx hex hp
+  have h2 : margin isWs ls <+: x := hmax _ (margin_ws isWs ls) (margin_prefix isWs ls)
+  exact List.IsPrefix.eq_of_length_le h2 h1.length_le
+
+theorem linesOf_snoc (ps : List Text) (last : Text) :
+    linesOf (ps ++ [last]) = ps.map stripCR ++ (if last.isEmpty then [] else [last]) := by
+  induction ps with
+  | nil => simp [linesOf]
+  | cons p r ih =>
+    cases r with
+    | nil => simp [linesOf]
+    | cons q r' =>
+      simp only [List.cons_append, linesOf, List.map_cons] at ih ⊢
+      rw [ih]
+
+theorem flatten_eq_unlines (f : Text → Text) (ls : List Text) :
+    (ls.map fun l => f l ++ [LF]).flatten = unlines (ls.map f) := by
+  simp [unlines, List.map_map, Function.comp_def]
+
+theorem map_stripCR_noCR (ps : List Text) (h : ∀ p ∈ ps, CR ∉ p) : ps.map stripCR = ps := by
+  induction ps with
+  | nil => rfl
+  | cons p r ih =>
+    simp only [List.map_cons, stripCR_noCR p (h p (by simp)), ih (fun x hx => h x (by simp [hx]))]
+
+/-- **dedent as a map over the `'\n'`-separated pieces** (text without `'\r'`): the output is
+    the images of the pieces joined by `'\n'` — same number of pieces, same number of `'\n'`,
+    a final `'\n'` is kept and none is added. -/
+-- @audit TW.C18.dedent_pieces
+theorem dedent_pieces (isWs : Char → Bool) (s : Text) (hcr : CR ∉ s) :
+    dedent isWs s = joinWith [LF] ((splitLF s).map (lineImage isWs (margin isWs (splitLF s)))) := by
+  rw [dedent_spec, lines_eq]
+  have hne := splitLF_ne_nil s
+  have hlast := splitLF_getLast s
+  have hnocr : ∀ p ∈ splitLF s, CR ∉ p := fun p hp hc => hcr (splitLF_sub s p hp CR hc)
+  obtain ⟨ps, last, hps⟩ : ∃ ps last, splitLF s = ps ++ [last] := by
+    cases h : (splitLF s).getLast? with
+    | none => exact absurd (List.getLast?_eq_none_iff.mp h) hne
+    | some l => exact ⟨_, l, (List.getLast?_eq_some_iff.mp h).choose_spec⟩
+  rw [hps] at hlast hnocr ⊢
+  rw [linesOf_snoc, map_stripCR_noCR ps (fun p hp => hnocr p (by simp [hp]))]
+  simp only [List.getLast?_append, List.getLast?_singleton, Option.some_or, Option.some.injEq] at hlast
+  by_cases hl : last = []
+  · subst hl
+    have hb : nonblank isWs ([] : Text) = false := by simp [nonblank]
+    simp only [List.isEmpty_nil, if_true, List.append_nil, margin_append_blank isWs ps [] hb,
+      List.map_append, List.map_cons, List.map_nil]
+    have himg : lineImage isWs (margin isWs ps) [] = [] := by simp [lineImage, hb]
+    rw [himg, ← unlines_eq_join]
+    simp only [flatten_eq_unlines]
+    rcases hlast.mp rfl with hs | hs
+    · -- `s = []`: one empty piece
+      subst hs
+      have : ps = [] := by
+        have : splitLF [] = ps ++ [[]] := hps
+        simp only [splitLF] at this
+        cases ps with
+        | nil => rfl
+        | cons a r => simp at this
+      subst this
+      simp [unlines]
+    · rw [if_neg (fun h => h.2 hs)]
+  · have hle : last.isEmpty = false := by cases last <;> simp_all
+    simp only [hle, Bool.false_eq_true, if_false]
+    have hs : s.getLast? ≠ some LF := fun h => hl (hlast.mpr (Or.inr h))
+    have hne2 : (ps ++ [last]).map (lineImage isWs (margin isWs (ps ++ [last]))) ≠ [] := by simp
+    simp only [flatten_eq_unlines]
+    rw [if_pos ⟨unlines_getLast _ hne2, hs⟩, unlines_dropLast _ hne2]
+
+/-! ### idempotence -/
+
+theorem lineImage_sub (isWs : Char → Bool) (m l : Text) : ∀ c ∈ lineImage isWs m l, c ∈ l := by
+  intro c hc
+  unfold lineImage at hc
+  split at hc
+  · exact List.mem_of_mem_drop hc
+  · simp at hc
+
+theorem nonblank_image (isWs : Char → Bool) (m l : Text) (hm : m.all isWs = true)
+    (hp : nonblank isWs l = true → m <+: l) :
+    nonblank isWs (lineImage isWs m l) = nonblank isWs l := by
+  unfold lineImage
+  by_cases hn : nonblank isWs l = true
+  · rw [if_pos hn, nonblank_drop isWs m l hm (hp hn)]
+  · rw [if_neg hn]
+    have : nonblank isWs l = false := by simpa using hn
+    rw [this]; simp [nonblank]
+
+/-- after removing the margin no common whitespace margin is left -/
+theorem margin_images (isWs : Char → Bool) (ls : List Text) :
+    margin isWs (ls.map (lineImage isWs (margin isWs ls))) = [] := by
+  have hmw := margin_ws isWs ls
+  have hmp := margin_prefix isWs ls
+  by_cases hex : ∃ l ∈ ls, nonblank isWs l = true
+  · have hw' := margin_ws isWs (ls.map (lineImage isWs (margin isWs ls)))
+    have hp' := margin_prefix isWs (ls.map (lineImage isWs (margin isWs ls)))
+    generalize margin isWs (ls.map (lineImage isWs (margin isWs ls))) = m' at hw' hp'
+    have hlong : margin isWs ls ++ m' <+: margin isWs ls := by
+      apply margin_longest isWs ls _ (by simp [List.all_append, hmw, hw']) hex
+      intro l hl hn
+      have himg : lineImage isWs (margin isWs ls) l = l.drop (margin isWs ls).length := by
+        simp [lineImage, hn]
+      have h1 : m' <+: l.drop (margin isWs ls).length := by
+        rw [← himg]
+        apply hp' _ (List.mem_map.mpr ⟨l, hl, rfl⟩)
+        rw [nonblank_image isWs _ l hmw (hmp l hl)]; exact hn
+      have h2 := (List.prefix_append_right_inj (margin isWs ls)).mpr h1
+      rw [drop_of_prefix (hmp l hl hn)] at h2
+      exact h2
+    have := hlong.length_le
+    simp only [List.length_append] at this
+    exact List.eq_nil_of_length_eq_zero (by omega)
+  · apply margin_no_nonblank
+    intro x hx
+    obtain ⟨l, hl, rfl⟩ := List.mem_map.mp hx
+    rw [nonblank_image isWs _ l hmw (hmp l hl)]
+    have : ¬ nonblank isWs l = true := fun h => hex ⟨l, hl, h⟩
+    simpa using this
+
+theorem image_nil_fix (isWs : Char → Bool) (m l : Text) (hm : m.all isWs = true)
+    (hp : nonblank isWs l = true → m <+: l) :
+    lineImage isWs [] (lineImage isWs m l) = lineImage isWs m l := by
+  have hn := nonblank_image isWs m l hm hp
+  have hx : nonblank isWs l = false → lineImage isWs m l = [] := by
+    intro h; simp [lineImage, h]
+  generalize lineImage isWs m l = x at hn hx
+  unfold lineImage
+  by_cases h : nonblank isWs l = true
+  · rw [hn, if_pos h]; simp
+  · rw [hn, if_neg h]
+    exact (hx (by simpa using h)).symm
+
+theorem CR_ne_LF : CR ≠ LF := by decide
+
+/-- **dedent is idempotent** on text without carriage returns (with them: known finding KF-3) -/
+-- @audit TW.C18.dedent_idempotent
+theorem dedent_idempotent (isWs : Char → Bool) (s : Text) (hcr : CR ∉ s) :
+    dedent isWs (dedent isWs s) = dedent isWs s := by
+  rw [dedent_pieces isWs s hcr]
+  have hmw := margin_ws isWs (splitLF s)
+  have hmp := margin_prefix isWs (splitLF s)
+  generalize hm : margin isWs (splitLF s) = m at hmw hmp
+  have hne : (splitLF s).map (lineImage isWs m) ≠ [] := by simp [splitLF_ne_nil s]
+  have hnolf : ∀ x ∈ (splitLF s).map (lineImage isWs m), LF ∉ x := by
+    intro x hx h
+    obtain ⟨l, hl, rfl⟩ := List.mem_map.mp hx
+    exact splitLF_no_LF s l hl (lineImage_sub isWs m l LF h)
+  have hcr2 : CR ∉ joinWith [LF] ((splitLF s).map (lineImage isWs m)) := by
+    intro h
+    rcases joinWith_sub _ _ CR h with h | ⟨x, hx, hc⟩
+    · simp at h; exact CR_ne_LF h
+    · obtain ⟨l, hl, rfl⟩ := List.mem_map.mp hx
+      exact hcr (splitLF_sub s l hl CR (lineImage_sub isWs m l CR hc))
+  rw [dedent_pieces isWs _ hcr2, splitLF_joinWith _ hne hnolf]
+  have := margin_images isWs (splitLF s)
+  rw [hm] at this
+  rw [this, List.map_map]
+  congr 1
+  apply List.map_congr_left
+  intro l hl
+  exact image_nil_fix isWs m l hmw (hmp l hl)
+
+/-! ### dedent after indent -/
+
+theorem trimEndBy_all (p : Char → Bool) (t : Text) (h : t.all p = true) : trimEndBy p t = [] := by
+  induction t with
+  | nil => rfl
+  | cons c cs ih =>
+    simp only [List.all_cons, Bool.and_eq_true] at h
+    simp [trimEndBy, ih h.2, h.1]
+
+/-- `indent` as a map over the `'\n'`-separated pieces, for a whitespace prefix -/
+theorem indent_pieces (isWs : Char → Bool) (s p : Text) (hp : p.all isWs = true) :
+    indent isWs s p = joinWith [LF] ((splitLF s).map fun l => if nonblank isWs l then p ++ l else l) := by
+  rw [C19.indent_spec]
+  have hf : C19.lineImage isWs p = fun l => if nonblank isWs l then p ++ l else l := by
+    funext l
+    unfold C19.lineImage nonblank
+    rw [trimEndBy_all isWs p hp]
+    cases l.all isWs <;> simp
+  rw [hf]
+  generalize hfd : (fun l => if nonblank isWs l then p ++ l else l) = f
+  have hf0 : f [] = [] := by rw [← hfd]; simp [nonblank]
+  unfold splitTerminatorLF
+  by_cases hl : (splitLF s).getLast? = some []
+  · simp only [hl]
+    rcases (splitLF_getLast s).mp hl with h | h
+    · subst h; simp [splitLF, joinWith, hf0]
+    · simp only [h, if_true]
+      obtain ⟨ps, hps⟩ := List.getLast?_eq_some_iff.mp hl
+      have hpsne : ps ≠ [] := by
+        intro hnil
+        subst hnil
+        have := joinWith_splitLF s
+        rw [hps] at this
+        simp [joinWith] at this
+        subst this
+        simp at h
+      rw [hps]
+      simp only [List.dropLast_concat, List.map_append, List.map_cons, List.map_nil, hf0]
+      have h2 : 2 ≤ (ps.map f ++ [[]]).length := by
+        cases ps with
+        | nil => exact absurd rfl hpsne
+        | cons a r => simp
+      have := joinWith_dropLast_nil (ps.map f ++ [[]]) (by simp) h2
+      simpa using this
+  · have hne : s.getLast? ≠ some LF := fun h => hl ((splitLF_getLast s).mpr (Or.inr h))
+    have : (match (splitLF s).getLast? with
+        | some [] => (splitLF s).dropLast
+        | _ => splitLF s) = splitLF s := by
+      split
+      · next h => exact absurd h hl
+      · rfl
+    simp only [this, hne, if_false, List.append_nil]
+
+/-- the margin of the indented lines is the prefix followed by the old margin -/
+theorem margin_indent (isWs : Char → Bool) (ls : List Text) (p : Text) (hp : p.all isWs = true)
+    (hex : ∃ l ∈ ls, nonblank isWs l = true) :
+    margin isWs (ls.map fun l => if nonblank isWs l then p ++ l else l) = p ++ margin isWs ls := by
+  have hmw := margin_ws isWs ls
+  have hmp := margin_prefix isWs ls
+  have hnb : ∀ l, nonblank isWs (if nonblank isWs l then p ++ l else l) = nonblank isWs l := by
+    intro l
+    by_cases h : nonblank isWs l = true
+    · rw [if_pos h, nonblank_append_ws isWs p l hp]
+    · rw [if_neg h]
+  apply margin_unique
+  · simp [List.all_append, hp, hmw]
+  · obtain ⟨l, hl, hn⟩ := hex
+    exact ⟨_, List.mem_map.mpr ⟨l, hl, rfl⟩, by rw [hnb]; exact hn⟩
+  · intro x hx hn
+    obtain ⟨l, hl, rfl⟩ := List.mem_map.mp hx
+    rw [hnb] at hn
+    rw [if_pos hn]
+    exact (List.prefix_append_right_inj p).mpr (hmp l hl hn)
+  · intro w hw hall
+    -- `w` is a whitespace prefix of every `p ++ l`
+    obtain ⟨l0, hl0, hn0⟩ := hex
+    have hw0 : w <+: p ++ l0 := by
+      have := hall _ (List.mem_map.mpr ⟨l0, hl0, rfl⟩) (by rw [hnb]; exact hn0)
+      rwa [if_pos hn0] at this
+    by_cases hlen : w.length ≤ p.length
+    · exact (List.prefix_of_prefix_length_le hw0 (List.prefix_append p l0) hlen).trans
+        (List.prefix_append p _)
+    · -- `w = p ++ y`, and `y` is a whitespace prefix of every nonblank line
+      have hpw : p <+: w := List.prefix_of_prefix_length_le (List.prefix_append p l0) hw0 (by omega)
+      obtain ⟨y, rfl⟩ := hpw
+      apply (List.prefix_append_right_inj p).mpr
+      apply margin_longest isWs ls y _ ⟨l0, hl0, hn0⟩
+      · intro l hl hn
+        have := hall _ (List.mem_map.mpr ⟨l, hl, rfl⟩) (by rw [hnb]; exact hn)
+        rw [if_pos hn] at this
+        exact (List.prefix_append_right_inj p).mp this
+      · simp only [List.all_append, Bool.and_eq_true] at hw
+        exact hw.2
+
+/-- **`dedent(indent(s, p)) = dedent(s)`** for every whitespace prefix `p` without line feed and
+    every `s` without carriage returns -/
+-- @audit TW.C18.dedent_indent
+theorem dedent_indent (isWs : Char → Bool) (s p : Text) (hp : p.all isWs = true)
+    (hplf : LF ∉ p) (hpcr : CR ∉ p) (hcr : CR ∉ s) :
+    dedent isWs (indent isWs s p) = dedent isWs s := by
+  rw [indent_pieces isWs s p hp, dedent_pieces isWs s hcr]
+  generalize hfd : (fun l => if nonblank isWs l then p ++ l else l) = f
+  have hf : ∀ l, f l = if nonblank isWs l then p ++ l else l := fun l => by rw [← hfd]
+  have hne : (splitLF s).map f ≠ [] := by simp [splitLF_ne_nil s]
+  have hnolf : ∀ x ∈ (splitLF s).map f, LF ∉ x := by
+    intro x hx h
+    obtain ⟨l, hl, rfl⟩ := List.mem_map.mp hx
+    rw [hf] at h
+    split at h
+    · rcases List.mem_append.mp h with h | h
+      · exact hplf h
+      · exact splitLF_no_LF s l hl h
+    · exact splitLF_no_LF s l hl h
+  have hcr2 : CR ∉ joinWith [LF] ((splitLF s).map f) := by
+    intro h
+    rcases joinWith_sub _ _ CR h with h | ⟨x, hx, hc⟩
+    · simp at h; exact CR_ne_LF h
+    · obtain ⟨l, hl, rfl⟩ := List.mem_map.mp hx
+      rw [hf] at hc
+      split at hc
+      · rcases List.mem_append.mp hc with hc | hc
+        · exact hpcr hc
+        · exact hcr (splitLF_sub s l hl CR hc)
+      · exact hcr (splitLF_sub s l hl CR hc)
+  rw [dedent_pieces isWs _ hcr2, splitLF_joinWith _ hne hnolf, List.map_map]
+  congr 1
+  apply List.map_congr_left
+  intro l hl
+  simp only [Function.comp]
+  have hnb : nonblank isWs (f l) = nonblank isWs l := by
+    rw [hf]
+    by_cases h : nonblank isWs l = true
+    · rw [if_pos h, nonblank_append_ws isWs p l hp]
+    · rw [if_neg h]
+  unfold lineImage
+  rw [hnb]
+  by_cases hn : nonblank isWs l = true
+  · rw [if_pos hn, if_pos hn, hf, if_pos hn, ← hfd, margin_indent isWs (splitLF s) p hp ⟨l, hl, hn⟩]
+    simp [List.drop_append]
+  · rw [if_neg hn, if_neg hn]
 
 /-! sanity on concrete input (tests, labelled as such): the repaired defect F4 and KF-3 -/
 example : dedent (fun c => c = ' ' || c = '\t') ("    foo\n\t\n    bar".toList) = "foo\n\nbar".toList := by
